@@ -109,6 +109,15 @@ fn registry() -> Vec<CheckDef> {
         run: kvlib::c20::run,
         replay: kvlib::c20::replay,
         assumptions: &["calls are counted by libc interposition; the application's own staging of source files is not counted", "descriptor counts come from the intercepted open/opendir/close/closedir stream and are cross-checked against the shim's table of still-open descriptors after the call"],
+    },
+    CheckDef {
+        id: "C10",
+        level: "exploration",
+        workers: 16,
+        rule: "every capacity k in 0..=200 x 8 scripted draw sequences fed to the trigger through the verification hook {all u64::MAX, all u64::MAX-1, all 1, decrement-1/decrement/decrement+1, random multiples of the decrement +-1, 2^63/u64::MAX alternating, uniform, j*decrement+-1 for small j} x write sequences of 3*max(1,k/3)+2 set/put on fresh and repeated keys, each on a fresh thread (virgin countdown), through plain::Cache or a stacked Cache with a plain writer; plus capacities {2^16, 2^32, 2^62, 2^63, MAX/3, MAX/3+1, MAX/2, MAX-2, MAX-1, MAX} with draws <= 3 (must fire at once) and boundary draws (no overflow/panic); non-trivial = period >= 2 and a scripted draw within +-1 of a multiple of the oracle's decrement ceil(2^64/period) or >= u64::MAX-1; distinct by hash of the case",
+        run: kvlib::c10::run,
+        replay: kvlib::c10::replay,
+        assumptions: &["a write maintains iff the trace shows it opendir the cache directory before its own rename/link", "the trigger's random draws are replaced through the cfg(kismet_verif) hook; draws of 0 are never scripted (the library redraws on 0)", "harness built with overflow-checks on, so arithmetic overflow in the trigger would panic"],
     }]
 }
 
